@@ -348,6 +348,22 @@ def m_dec_compare(ex, st, callee, args, dest_ty):
     yield st, finite(z3.ToReal(iv), q=z3.IntVal(0), fl=iv)
 
 
+def m_dec_compare_total(ex, st, callee, args, dest_ty):
+    """decQuadCompareTotal (IEEE 754 totalOrder): like compare, but numerically equal finite numbers are ordered by their
+    exponents (for positive numbers the smaller exponent comes first, for negative ones the larger) and NaNs are ordered too"""
+    a, b = deref(ex, st, args[0]), deref(ex, st, args[1])
+    ka, kb = ck(a), ck(b)
+    pos = {NINF: -1, FIN: 0, PINF: 1, NAN: 2}
+    if ka != FIN or kb != FIN:
+        c = (pos[ka] > pos[kb]) - (pos[ka] < pos[kb])
+        yield st, const_dq(c)
+        return
+    qa, qb = get_q(ex, st, a), get_q(ex, st, b)
+    byq = z3.If(qa == qb, z3.IntVal(0), z3.If((qa < qb) == (a.e >= 0), z3.IntVal(-1), z3.IntVal(1)))
+    iv = z3.simplify(z3.If(a.e == b.e, byq, z3.If(a.e < b.e, z3.IntVal(-1), z3.IntVal(1))))
+    yield st, finite(z3.ToReal(iv), q=z3.IntVal(0), fl=iv)
+
+
 def m_dec_pred(ex, st, callee, args, dest_ty):
     a = deref(ex, st, args[0])
     p = callee.rsplit("dec_is_", 1)[1]
@@ -550,6 +566,7 @@ DEC_MODELS = [
     (R(r"(^|::)dec_(floor|ceiling|trunc)$"), m_dec_to_integral),
     (R(r"(^|::)dec_fract$"), m_dec_fract),
     (R(r"(^|::)dec_compare$"), m_dec_compare),
+    (R(r"(^|::)dec_compare_total$"), m_dec_compare_total),
     (R(r"(^|::)dec_is_(finite|zero|positive|negative|integer)$"), m_dec_pred),
     (R(r"(^|::)dec_remainder$"), m_dec_remainder),
     (R(r"(^|::)dec_rescale$"), m_dec_rescale),
